@@ -19,6 +19,19 @@ func init() {
 		if a.Equals(b) != want {
 			c.R.Violation("lookup.source_equals", hexIn(in), impl, bl(want), "Source.Equals disagrees with 'same RFC1459 fold of the name, same ident and host'")
 		}
+		// identity follows the CURRENT name: a Source whose Name is rewritten (a relay, a re-used template, a copy) compares
+		// by the new name — ID()/Equals() must not remember an earlier spelling
+		re := &girc.Source{Name: in["a"], Ident: in["ia"], Host: in["ha"]}
+		_ = re.ID()
+		_ = re.Equals(b)
+		cp := re.Copy()
+		re.Name, cp.Name = in["b"], in["b"]
+		if re.ID() != girc.ToRFC1459(in["b"]) || cp.ID() != girc.ToRFC1459(in["b"]) {
+			c.R.Violation("lookup.source_id_stale", hexIn(in), re.ID()+" / "+cp.ID(), girc.ToRFC1459(in["b"]), "Source.ID() of a source (or of its copy) whose Name was changed is not the fold of the current name")
+		}
+		if want2 := re.Ident == b.Ident && re.Host == b.Host; re.Equals(b) != want2 || cp.Equals(b) != want2 {
+			c.R.Violation("lookup.source_equals_stale", hexIn(in), bl(re.Equals(b)), bl(want2), "Source.Equals after the Name was changed still answers for the earlier name")
+		}
 		ea := &girc.Event{Command: "PRIVMSG", Params: []string{"#c", "hi"}, Source: a}
 		eb := &girc.Event{Command: "PRIVMSG", Params: []string{"#c", "hi"}, Source: b}
 		if ea.Equals(eb) != want {
@@ -54,9 +67,16 @@ func runC15Lookups(c *Ctx) {
 	for i := 0; i < 12*c.Scale; i++ {
 		s := &Session{Cfg: SessCfg{Nick: "me", User: "me", AllowFlood: true}, Steps: []Step{
 			{Op: "recv", Arg: ":srv 001 me :Welcome"}, {Op: "barrier"}, {Op: "waitnick", Arg: "me"},
+			// whatever CASEMAPPING the server announces, the client's name-keyed queries are RFC1459 case-insensitive
+			{Op: "recv", Arg: ":srv 005 me " + []string{"CASEMAPPING=ascii", "CASEMAPPING=rfc1459", "CASEMAPPING=strict-rfc1459", "NETWORK=x", "CASEMAPPING=ascii CHANTYPES=#&"}[i%5] + " :are supported by this server"},
 			{Op: "recv", Arg: ":me!u@h JOIN #Chan[1]"}, {Op: "recv", Arg: ":srv 353 me = #Chan[1] :me @Bob[a] +carl\\x d^e"}, {Op: "recv", Arg: ":me!u@h JOIN &loc~"}, {Op: "recv", Arg: ":srv 353 me = &loc~ :me Bob[a]"},
 			{Op: "barrier"}, {Op: "lookups"}}}
 		res := c.RunSession(s)
+		if res.Crashed || res.Wedged || len(res.Panics) > 0 {
+			c.R.Violation("lookup.session_died", map[string]string{"history": hx(fmt.Sprint(s.Steps))}, fmt.Sprintf("crashed=%v wedged=%v panics=%v", res.Crashed, res.Wedged, res.Panics), "",
+				"a plain two-channel session with bracket nicks (after an ISUPPORT announcement) crashed or wedged the client: a name-keyed lookup did not find what had just been stored under the same name")
+			break
+		}
 		for _, d := range res.Snap {
 			c.R.Violation("lookup.state", map[string]string{"history": hx("fixed two-channel session")}, d, "", "a name-keyed state query answered differently for two names with the same fold")
 		}
@@ -82,6 +102,7 @@ func lookupsOp(c *girc.Client, res *SessResult) {
 	}
 	for _, ch := range c.ChannelList() {
 		base := c.LookupChannel(ch)
+		chk("LookupChannel("+ch+") finds a listed channel", base != nil, true)
 		for _, v := range spell(ch) {
 			x := c.LookupChannel(v)
 			chk("LookupChannel("+v+")", renderChannel(x), renderChannel(base))
@@ -97,6 +118,7 @@ func lookupsOp(c *girc.Client, res *SessResult) {
 	}
 	for _, u := range c.UserList() {
 		base := c.LookupUser(u)
+		chk("LookupUser("+u+") finds a listed user", base != nil, true)
 		for _, v := range spell(u) {
 			chk("LookupUser("+v+")", renderUser(c.LookupUser(v)), renderUser(base))
 			for _, ch := range c.Channels() {
